@@ -297,7 +297,7 @@ Proof.
   intros G. destruct (stored_of_xt s _ r rest G eq_refl) as [l Hr].
   assert (G1 : GInv (unref s r) (gk rest xe k)).
   { eapply ginv_geq; [apply (unref_xt s _ r rest l G); auto|reflexivity]. }
-  cbv zeta. destruct (aget (store (unref s r)) r); auto. apply remove_mgr_ginv; auto. intros _; split; reflexivity.
+  cbv zeta. destruct (aget (store (unref s r)) r); auto. apply remove_mgr_ginv; auto.
 Qed.
 Lemma unref_e_tail s xt k k' r rest :
   GInv s (gk xt (r :: rest) k) ->
@@ -308,7 +308,7 @@ Proof.
   intros G. destruct (stored_of_xe s _ r rest G eq_refl) as [l Hr].
   assert (G1 : GInv (unref s r) (gk xt rest k)).
   { eapply ginv_geq; [apply (unref_xe s _ r rest l G); auto|reflexivity]. }
-  cbv zeta. destruct (aget (store (unref s r)) r); auto. apply remove_mgr_ginv; auto. intros _; split; reflexivity.
+  cbv zeta. destruct (aget (store (unref s r)) r); auto. apply remove_mgr_ginv; auto.
 Qed.
 
 Lemma do_timeout_ginv s xe k0 r rest :
@@ -330,9 +330,7 @@ Proof.
     set (l1 := l <| l_timeouted := true |>).
     assert (G1 : GInv (setl s r l1) (gk (r :: rest) xe k <| g_cw := (-1)%Z |>)).
     { eapply ginv_geq; [apply (setl_flags s _ r l l1 G Hr); auto; unfold gk; gs|].
-      - simpl. discriminate.
       - change (l_long l1) with (l_long l). rewrite Hlong. discriminate.
-      - simpl. tauto.
       - unfold gk. gs. unfold liveb. change (l_timeouted l1) with true. rewrite Et. reflexivity. }
     pose proof (waiter_gone_ginv (setl s r l1) (r :: rest) xe k G1) as G2. unfold waiter_gone in G2.
     destruct (get_wait_lock (setl s r l1) k) as [s2 w].
@@ -340,4 +338,85 @@ Proof.
     pose proof (unref_t_tail s3 xe k k r rest G2) as G3. cbv zeta in G3.
     split; [|intros w0 H; inversion H; reflexivity]. cbn [fst].
     eapply ginv_geq; [eapply updc_ginv with (cl' := 0%Z) (cw' := 0%Z); [exact G3|..]; unfold gk; gs; cbn; lia|reflexivity].
+Qed.
+
+Lemma do_expried_ginv s xt k0 r rest :
+  GInv s (gk xt (r :: rest) k0) ->
+  exists k, res_ok xt rest k (do_expried s r).
+Proof.
+  intros G0. destruct (stored_of_xe s _ r rest G0 eq_refl) as [l Hr].
+  unfold do_expried. rewrite Hr. set (k := l_key l). exists k.
+  pose proof (gk_rekey s xt (r :: rest) k0 k G0) as G. set (g := gk xt (r :: rest) k) in *.
+  destruct (l_expried l) eqn:Ee.
+  - split; [|intros w H; discriminate]. cbn [fst]. apply (unref_e_tail s xt k k r rest G).
+  - destruct (gi_rec _ _ G r l Hr) as [A1 A2 A3 A4 A5 A6 A7 A8 A9 A10 A11].
+    destruct (rec_counts s g r l G Hr) as [[C1 [C2 [C3 C4]]] [m [Hm Hgm]]]. fold k in Hm, Hgm.
+    assert (Ht : l_timeouted l = true).
+    { destruct (l_timeouted l) eqn:E; auto. destruct (A6 eq_refl) as [_ [Q _]]. unfold ecount, g, gk in Q. gs. rewrite occ_cons_eq in Q. lia. }
+    assert (Hlong : l_long l = false).
+    { destruct (l_long l) eqn:El; auto. exfalso. destruct (A8 eq_refl eq_refl) as [_ Q]. specialize (Q Ht).
+      pose proof (occ_wheel_get_le r (elong s) (lkey (l_eT l))). unfold ecount, g, gk in A5. gs. rewrite occ_cons_eq in A5. lia. }
+    destruct (negb (leader s) && l_isaof l && ((l_eT l <=? 0)%Z || (now s - l_eT l <? EXPRIED_WAIT_LEADER_MAX_TIME)%Z)).
+    + (* not the leader: re-arm *)
+      cbv zeta. rewrite (updl_some _ _ _ _ Hr).
+      set (l1 := l <| l_eT := (now s + 30)%Z |>).
+      assert (G1 : GInv (setl s r l1) g).
+      { apply (setl_irrel s g r l l1 G Hr); [unfold same_rel; destruct l; cbn; intuition|intros E; congruence]. }
+      assert (Hr1 : aget (store (setl s r l1)) r = Some l1) by (rewrite store_setl, aget_aset_same; auto).
+      assert (G2 : GInv (fst (add_expried (setl s r l1) k r)) (gk xt rest k)).
+      { eapply ginv_geq; [eapply (add_expried_ginv _ _ k r rest l1 G1); unfold g, gk; gs; auto|reflexivity]. }
+      destruct (add_expried (setl s r l1) k r) as [s2 aev]. split; [exact G2|intros w H; discriminate].
+    + (* the hold expires *)
+      cbv zeta. rewrite (updl_some _ _ _ _ Hr).
+      set (l1 := l <| l_expried := true |>).
+      assert (G1 : GInv (setl s r l1) g).
+      { apply (setl_irrel s g r l l1 G Hr); [unfold same_rel; intuition|intuition]. }
+      set (s1 := setl s r l1) in *.
+      assert (Hr1 : aget (store s1) r = Some l1) by (unfold s1; rewrite store_setl, aget_aset_same; auto).
+      assert (Hm1 : aget (mgrs s1) k = Some m) by exact Hm.
+      destruct (gi_mgr _ _ G k m Hm) as [B1 B2 B3 B4 B5 B6 B7 B8 B9 Bb B10 Bc].
+      set (d := l_locked l) in *.
+      assert (Hsum : d <= m_locked m).
+      { destruct (N.eq_dec d 0) as [E|E]; [lia|].
+        assert (Hh : occ r (holders m) = 1%nat) by (rewrite <- Hgm; apply A7; [lia|reflexivity]).
+        assert (Hin : In r (holders m)) by (apply occ_In; lia).
+        pose proof (sumdepth_ge s r (holders m) Hin) as S. rewrite (getl_some _ _ _ Hr) in S.
+        unfold dlk, g, gk in B6. gs. destruct (k =? k) in B6; fold d in S; lia. }
+      destruct Bb as [_ Bl].
+      rewrite (updm_some _ _ _ _ Hm1).
+      set (m1 := m <| m_locked := sub32 (m_locked m) d |>).
+      assert (Hl1 : m_locked m1 = m_locked m - d) by (unfold m1; cbn; apply sub32_sub; lia).
+      assert (G2 : GInv (setm s1 k m1) (gkd xt (r :: rest) k (Z.of_N d) (- Z.of_N d) 0)).
+      { eapply ginv_geq; [apply (setm_scalar s1 g k m m1 G1 Hm1); try (destruct m; reflexivity); [lia|right; reflexivity]|].
+        rewrite Hl1. unfold g, gk, gkd. gs.
+        match goal with |- _ = ?g0 <| g_dl := ?e1 |> <| g_cl := ?e2 |> =>
+          replace e1 with (Z.of_N d) by lia; replace e2 with (- Z.of_N d)%Z by lia end. reflexivity. }
+      set (s2 := setm s1 k m1) in *.
+      assert (Hr2 : aget (store s2) r = Some l1) by exact Hr1.
+      assert (G3 : GInv (remove_lock (if l_isaof (getl s2 r) then fst (push_unlock_aof s2 k r (l_cmd l) None false AOF_FLAG_EXPRIED) else s2) k r)
+                        (gkd xt (r :: rest) k 0 (- Z.of_N d) 0)).
+      { assert (P : exists s3 l3, s3 = (if l_isaof (getl s2 r) then fst (push_unlock_aof s2 k r (l_cmd l) None false AOF_FLAG_EXPRIED) else s2)
+              /\ GInv s3 (gkd xt (r :: rest) k (Z.of_N d) (- Z.of_N d) 0) /\ aget (store s3) r = Some l3 /\ lsame l1 l3).
+        { destruct (l_isaof (getl s2 r)).
+          - destruct (push_unlock_aof_ok s2 _ k r (l_cmd l) None false AOF_FLAG_EXPRIED G2) as [Ga Sa].
+            destruct (sim_stored _ _ r l1 Sa Hr2) as [l3 [H1 H2]]. eauto 6.
+          - exists s2, l1. split; [reflexivity|]. split; [exact G2|]. split; [exact Hr2|apply lsame_refl]. }
+        destruct P as [s3 [l3 [E [Ga [Hr3 Hs3]]]]]. rewrite <- E.
+        assert (K3 : l_key l3 = k) by (rewrite Hs3; reflexivity).
+        assert (D3 : l_locked l3 = d) by (rewrite Hs3; reflexivity).
+        destruct (N.eq_dec d 0) as [E0|E0].
+        - rewrite E0 in *. apply (remove_lock_dead_ginv s3 _ k r l3 Ga); unfold gkd; gs; auto.
+        - eapply ginv_geq; [apply (remove_lock_ginv s3 _ k r l3 Ga); unfold gkd; gs; auto; lia|].
+          rewrite D3. unfold gkd. gs. match goal with |- _ = ?g0 <| g_dl := ?e1 |> => replace e1 with 0%Z by lia end. reflexivity. }
+      destruct (l_isaof (getl s2 r)); [destruct (push_unlock_aof s2 k r (l_cmd l) None false AOF_FLAG_EXPRIED) as [s3 aev]|]; cbn [fst] in G3.
+      all: match type of G3 with GInv ?S _ => set (s4 := S) in * end.
+      all: assert (G4 : GInv s4 (gk xt (r :: rest) k <| g_cl := (- Z.of_N d)%Z |>)) by (eapply ginv_geq; [exact G3|reflexivity]).
+      all: destruct (stored_of_xe s4 _ r rest G4 eq_refl) as [l4 Hr4].
+      all: assert (G5 : GInv (unref s4 r) (gk xt rest k <| g_cl := (- Z.of_N d)%Z |>)) by
+             (eapply ginv_geq; [apply (unref_xe s4 _ r rest l4 G4); auto|reflexivity]).
+      all: assert (G6 : GInv (if match aget (store (unref s4 r)) r with None => true | Some _ => false end
+                              then remove_mgr_if_unref (unref s4 r) k else unref s4 r) (gk xt rest k <| g_cl := (- Z.of_N d)%Z |>)) by
+             (destruct (aget (store (unref s4 r)) r); auto; apply remove_mgr_ginv; auto).
+      all: split; [|intros w0 H; inversion H; reflexivity]; cbn [fst].
+      all: eapply ginv_geq; [eapply updc_ginv with (cl' := 0%Z) (cw' := 0%Z); [exact G6|..]; unfold gk; gs; cbn; lia|reflexivity].
 Qed.
